@@ -420,7 +420,37 @@ def r6_only_counted_bytes_refuse(ctx):
             ctx.check(R, "refusal-cause", is_prop or sl.has_call(r"Result::<T, E>::map_err$"),
                       "error send outside any cap comparison is the propagation of a frame/drain failure: %s" % (is_prop or sl.has_call(r"Result::<T, E>::map_err$")), (g, bb))
 
-RULES = [("C11.R1", r1_cap_before_delivery), ("C11.R2", r2_refusal_final), ("C11.R3", r3_cap_provenance), ("C11.R4", r4_effective_limit), ("C11.R5", r5_who_reads_body), ("C11.R6", r6_only_counted_bytes_refuse)]
+
+def r7_frame_errors_are_errors(ctx):
+    """Added after adversary change C18-D (`Err(_) => break` on a failed body frame: a body shorter than its Content-Length,
+    or a chunked body with corrupt framing, ended the stream as if complete and the handler ran on the truncated body)."""
+    from .lib import result_split, http_error_ctors_on_error_path
+    R = ctx.rule("C11.R7", "a failed body frame (truncated or corrupt framing) never ends the body stream silently: its Err case always emits an error item built by "
+                 "for_bad_request before the stream can end, and delivers no further data", floor=3)
+    top, g = _stream_coroutine(ctx, R)
+    sends = _sends(g)
+    data = [bb for bb, t, k, sl in sends if k == "data"]
+    err_blocks = [bb for bb, t, k, sl in sends if k == "err"]
+    frame_results = [l for l, ty in enumerate(g.raw["locals"]) if re.match(r"^std::result::Result<hyper::body::Frame<", ty)]
+    splits = []
+    seen_sw = set()
+    for l in frame_results:
+        sp = result_split(g, l)
+        if sp and sp["switch_bb"] not in seen_sw:
+            seen_sw.add(sp["switch_bb"])
+            splits.append(sp)
+    ctx.check(R, "frame-result-is-examined", len(splits) >= 1, "places where the Result of a body frame is split into Ok/Err: %d" % len(splits), g)
+    for sp in splits:
+        ok = bool(err_blocks) and g.must_pass(err_blocks, start=sp["err"])
+        ctx.check(R, "frame-error-always-reported", ok,
+                  "every path from the Err case of a body frame to the end of the stream passes an error item: %s%s" % (ok, "" if ok else " — the stream can end as if the body were complete"), (g, sp["switch_bb"]))
+        reach = g.reachable(sp["err"], avoid=[b for b in err_blocks])
+        ctx.check(R, "frame-error-delivers-no-data", not any(d in reach for d in data), "no data item can follow a failed frame before the error item", (g, sp["switch_bb"]))
+        names = http_error_ctors_on_error_path(g, sp)
+        ctx.check(R, "frame-error-is-400", names == {"error::HttpError::for_bad_request"}, "constructors of the error item for a failed frame: %s" % (sorted(names) or "none"), (g, sp["switch_bb"]))
+
+
+RULES = [("C11.R7", r7_frame_errors_are_errors), ("C11.R1", r1_cap_before_delivery), ("C11.R2", r2_refusal_final), ("C11.R3", r3_cap_provenance), ("C11.R4", r4_effective_limit), ("C11.R5", r5_who_reads_body), ("C11.R6", r6_only_counted_bytes_refuse)]
 
 SELFTEST = [
     {"name": "ge-for-gt", "kind": "mutant", "edits": [("dropshot/src/extractor/body.rs", "if bytes_read + len > self.cap {", "if bytes_read + len >= self.cap {")], "expect": ["C11.R1"],
@@ -445,3 +475,5 @@ SELFTEST = [
 ]
 
 LEVEL_TEXT += ' Also (R6): a refusal can only be caused by bytes actually counted, by a sound lower bound of the remaining length, or by a transport error.'
+
+LEVEL_TEXT += " Also (R7): a failed body frame (truncated / corrupt framing) always yields a for_bad_request error item and no further data; the stream never ends silently on it."
